@@ -46,12 +46,25 @@ func (s *Session) ExecQuery(q string) error {
 		fmt.Printf("created database %s\n\r", stmt.Name)
 		return nil
 	case sql.UseStatement:
-		var err error
-		s.CurDB = stmt.DBName
-		s.RelationService, err = storage.OpenRelation(stmt.DBName, true)
+		if s.RelationService != nil && strings.ToLower(s.CurDB) == strings.ToLower(stmt.DBName) {
+			// the database is already selected and open
+			fmt.Printf("selected database %s\n\r", stmt.DBName)
+			return nil
+		}
+		rs, err := storage.OpenRelation(stmt.DBName, true)
 		if err != nil {
+			// keep the current selection
 			return err
 		}
+		if s.RelationService != nil {
+			// flush and stop the previously selected database
+			if err := s.RelationService.Close(); err != nil {
+				rs.Close()
+				return err
+			}
+		}
+		s.CurDB = stmt.DBName
+		s.RelationService = rs
 		fmt.Printf("selected database %s\n\r", stmt.DBName)
 		return nil
 	case sql.ShowDatabase:
